@@ -50,7 +50,7 @@ for n in names:
                     got = 'PANIC'
         except Unsupported as e:
             unsup += 1
-            print('%s(%d,%d): unsupported: %s' % (n, a, b, str(e)[:140]))
+            print('%s(%d,%d): unsupported: %s' % (n, a, b, str(e)[:400]))
             break
         except Exception as e:
             bad += 1
